@@ -11,4 +11,49 @@ CLAIMED = {
                   'These exclude every way the schedule could influence the output; byte equality itself is not computed.',
              note=NOTE),
 }
+def _c(tech, text):
+    return dict(category='other', technique=tech, text=text, note=NOTE)
+
+CLAIMED.update({
+ 'C01': _c('abstract interpretation of the chunk load/export code over a remaining-length partition; access-log comparison per thread count',
+           'Decides the structural necessary conditions of the round trip: PKCS#7 pad write for every residue, end-of-body table '
+           '(FULL/FINAL/NODATA) for encrypt and decrypt over r=0, 0<r<sum aligned/unaligned, r=sum, r>sum, non-empty READY buffers, '
+           'export size within the buffer under a valid-padding guard, decrypt body offset = writer header length for every T, '
+           'chunk i <-> stream i. Byte equality of decrypt(encrypt(P)) is not computed.'),
+ 'C02': _c('abstract interpretation of execute_encrypt from a constructor-built object; ordered stream-access log vs documented layout',
+           'Decides, per thread count, that the bytes written before the body tile [0,48+20T) exactly as documented (magic, mode bytes, '
+           '38 zeros, T 20-byte IV slots of one array), the body starts at 48+20T, the tag goes to offset 10 last, the IV chain is '
+           'H(seed), H(iv[i-1]), one stream per thread in the right direction, padding/end-of-body rules, and nothing writes the input. '
+           'The cipher bytes themselves are C09/C10; byte-for-byte equality with a reference is not computed.'),
+ 'C04': _c('monitor-discipline analysis (lockset, wait-loop leave sets, notify-before-release) + role typestate + exhaustive T enumeration of spawn/join',
+           'Decides the monitor discipline that excludes lost wake-ups (token written only under its mutex; every wait in a re-testing '
+           'loop with computed leave set; notify_all on every condition variable whose leave set contains the written value before the '
+           'mutex is released; leave sets reachable), no READY buffer without blocks, workers exit only on INV, every thread joined for '
+           'T=1..16, I/O loop exits only with live counter 0, live counter tied to INV, no load after end of input. '
+           'Liveness under fairness as such is not decided.'),
+ 'C05': _c('provenance by named file-offset symbols in an abstract run of verify+decrypt; control-dependence gate; comparison completeness',
+           'Decides that every file-derived scalar steering processing after the gate lies in the hashed range or is pinned to a constant '
+           '(the cipher-mode byte at offset 8 is the recorded known finding), accepted paths hash [48,EOF), output effects are gated on '
+           'verify()==0, and the tag compare establishes equality of every digest byte. Cryptographic strength is assumed.'),
+ 'C06': _c('control-dependence gate + comparison completeness + key-byte content flow through the HMAC computation',
+           'Decides that decryption output is control-dependent on verify()==0, the compare accepts only with every digest byte equal, '
+           'and all 16 key bytes reach both hash inputs by content; cipher streams get the same key. That a different key gives a '
+           'different tag is the MAC assumption.'),
+ 'C08': _c('abstract interpretation of the tag computation with named key bytes; access-log offsets',
+           'Decides the RFC 2104 structure by content (K0^ipad || stream-to-EOF, K0^opad || inner digest, length B+L, same hasher) for the '
+           'three hash modes, tag offset 10 / hashed range from 48 on both sides, zero-filled tag area, complete compare. Digest values are C07.'),
+ 'C12': _c('sibling cross-check of the abstract path sets of execute_verify and execute_decrypt',
+           'Decides that both operations return exactly (shared verification returned 0), reach it with the same reads and outcome set, '
+           'handle a missing input alike, that verify has no output effect and nothing writes the input stream.'),
+ 'C13': _c('ordering analysis of the write list of execute_encrypt per thread count',
+           'Decides that the tag write is the single and last output write after the body, preceded by the hash over [48,EOF), and that '
+           'every earlier write into [10,48) is zero, so every proper prefix of the write sequence carries a zero/partial tag; with the '
+           'complete compare this leaves only the cryptographic assumption.'),
+ 'C14': _c('abstract interpretation: ownership typestate with inferred rely/guarantee, per thread role',
+           'Decides that every buffer field access in either role happens under exclusive ownership of the same index, token writes are '
+           'under the mutex, INV is terminal, worker i uses buffer i only, the cursor is monotone and hand-back happens only when consumed.'),
+ 'C18': _c('abstract interpretation: IV pointer reaching each stream constructor vs header IV slots; seed flow',
+           'Decides which IV slot reaches stream k (known finding: every stream gets slot 0), that the array is the one stored in / read '
+           'from the header, and that the chain starts from the hash of the whole seed.'),
+})
 NOT_CLAIMED = {}
